@@ -9,7 +9,7 @@ LEAN_MODULES = ["Ecal.Props.C09"]
 
 RULE = ("one case = one schedule of the real pool under the hook scheduler (go/cmd/harness/c09sched.go): "
         "directed schedules (lost-wake-up windows after the empty Pop / after L.Lock / after the predicate check, "
-        "kill vs. wait, resize up/down during bursts, resize while an earlier shrink is still carried out (over-kill / under-shoot / waiting shrink), "
+        "kill vs. wait, resize up/down during bursts, shrink-and-back with pending kill requests, a waiting resize superseded by a later one, JoinAll against a worker about to wait, resize while an earlier shrink is still carried out (over-kill / under-shoot / waiting shrink), "
         "resize / AddTask while a JoinAll is carried out, a SetWorkerCount that overwrites a JoinAll's request (JoinAll must still return), SetWorkerCount(0) with a backlog and back, a running task waiting for the start of a queued one, "
         "a task adding tasks from Run, JoinAll after a burst, WaitAll while a task runs) x workers {1,2,4}; a family on a real engine.Processor "
         "(engine.TaskQueue, rule actions injecting child events from inside Run, AddEventAndWait); "
@@ -43,6 +43,9 @@ ASSUMPTIONS = [
     "termination (F2): every task's Run returns",
     "'eventually started' = safety (task_multiset) + no stuck state (no_stuck_task / resize_converges) + F1 + F2; the step from no-stuck-state to real time is not proved",
     "resize_target holds until the next resize / JoinAll (re-)asserts its request; when a JoinAll and a SetWorkerCount(n>0) overlap the one deciding last wins: JoinAll keeps its request up in its loop (fix C09-joinall-vs-setworkercount), both calls return",
+    "'eventually started' is proved at QUEUE level (some queued task is popped after boundedly many internal steps unless the pool is saturated or workerless); "
+    "per-task start needs a fair queue (DefaultTaskQueue is FIFO, checked on traces only); engine.TaskQueue can starve a low-priority task under continuous arrivals — not a C09 obligation",
+    "the RETURN of SetWorkerCount / its two polling loops are not modelled; that an overruled or superseded waiting call returns is only tested (judged from the call's own loop iterations, never from wall-clock time)",
     "OUTSIDE THE QUANTIFIER ('while the pool has at least one worker'): WaitAll on a pool without workers returns at once with tasks queued (hypothesis 0 < workerCount of waitall_sound); "
     "JoinAll on a pool without workers but with queued tasks never returns (ran: SetWorkerCount(0,true) with a backlog, then JoinAll: spins) — JoinAll's termination is proved as bounded work + no stuck state (joinall_bound, joinall_not_stuck) under fairness; WaitAll's termination is not claimed, only that its exit guard is sound",
     "the RETURN of SetWorkerCount(n>0, …) is not modelled: its trailing loop waits until some worker is idle, i.e. on a saturated pool until the backlog is drained (ran: 1 busy worker, SetWorkerCount(1,false) returned after the backlog); the property constrains the worker COUNT (resize_target, resize_converges), not the call's return",
@@ -95,6 +98,8 @@ def compare(go_text, model_text):
     mm = parse_monitors(model_text)
     diffs = []
     for k in FIELDS:
+        if k == "ja" and gm.get("ja") == "ud":
+            continue  # the harness could not decide within its time limit whether JoinAll spins: not judged
         if k == "rs" and gm.get("rs") == "na":
             if mm.get("rs") == "bad":
                 diffs.append("rs: the model's final worker count differs from the last decided SetWorkerCount target")
